@@ -12,7 +12,10 @@ ASSUMPTIONS = ["time items strictly increasing", "survival table in [0,1]; diago
                "scipy kernels are functions of their arguments (uninterpreted, congruence only) in the time-shift harness",
                "scipy.linalg.solve_triangular satisfies its documented contract"]
 OUTSIDE = ["n beyond the bound", "IEEE rounding"]
+VARIANTS = "impulse and causal on a model computed before; plain per-label parameter vectors; np.allclose by numpy's definition in the scaling harness"
 BOUNDS = {"quick": dict(n=[3, 4], labels=2, grids=dsm.GRIDS, linearity_stock_driven="n=3 only"), "thorough": dict(n=[3, 4, 5, 6], labels="2 and 2x2", grids=dsm.GRIDS, linearity_stock_driven="n=3 only")}
+for _t in BOUNDS.values():
+    _t["variants_beyond_the_base_enumeration"] = VARIANTS
 OPTS = {"quick": dict(shadow_every=3, timeout_ms=20000, max_paths=400), "thorough": dict(shadow_every=5, timeout_ms=120000, max_paths=400)}
 KINDS = ["idsm", "sdsm_manual", "sdsm_lapack"]
 REAL = [("FixedLifetime", ["mean"]), ("NormalLifetime", ["mean", "std"]), ("FoldedNormalLifetime", ["mean", "std"]),
